@@ -413,10 +413,41 @@ def run_impl(ck, harness, reqfile, n, jobs=4):
     return answers, incidents
 
 
+def parse_req(line):
+    f = line.split()
+    if f[0] == "tokc":
+        return ("tokc", unhx(f[1]), unhx(f[2]), f[3] == "1")
+    return tuple([f[0]] + [unhx(x) for x in f[1:]])
+
+
+def replay(ck, harness, driver):
+    """bin/check C32 --replay <file>: re-run exactly the recorded request on the implementation and the model"""
+    import json
+    rec = json.load(open(ck.replay_file))
+    line = rec.get("request") or (rec.get("failing_input") or {}).get("request")
+    if not line:
+        print("replay file has no recorded request")
+        return 2
+    rf = ck.write("replay.txt", line + "\n")
+    impl, _ = run_impl(ck, harness, rf, 1, jobs=1)
+    model = ck.run([driver], input=line + "\n").stdout.splitlines()
+    r = parse_req(line)
+    want = spec(r)
+    ok = conv_match(want, impl[0]) if r[0] == "conv" else impl[0] == want
+    print("request        : %s  %s" % (line, [show(x) if isinstance(x, bytes) else x for x in r[1:]]))
+    print("implementation : %s" % impl[0])
+    print("model          : %s" % (model[0] if model else "?"))
+    print("property wants : %s" % (want,))
+    print("property holds on the implementation's answer: %s" % ok)
+    return 0 if ok else 1
+
+
 def run(ck):
     rng = random.Random(ck.seed)
     harness = ck.cxx("c32h", ["C32/harness.cxx", os.path.join(vlib.REPO, SRC)], sanitize=True)
     driver = ck.lean_exe("c32driver", "TfelVerif/C32/Driver.lean")
+    if getattr(ck, "replay_file", None):
+        return replay(ck, harness, driver)
     res = ck.lean(PROPS, PROPS)
 
     reqs = []
@@ -498,6 +529,9 @@ def run(ck):
                 SITE[op], ", ".join(str(x) for x in rep["arguments"]), m, a), rep, False)
 
     ck.lean_violations(res, lambda fl: first_bad)
+    if not ck.quick:
+        for (m, log) in ck.leanchecker(PROPS):
+            ck.violation("leanchecker:" + m, "leanchecker rejects %s" % m, {"log": log}, False)
 
     # observations outside the stated quantifier (evidence only)
     obs_reqs = ["repps 666f6f626172 6f 30 3", "repps 616263 62 58 1", "toks 612c 2c", "toks 2c 2c", "toks - 2c",
